@@ -110,6 +110,42 @@ pub fn check(c: &Case) -> CheckResult {
         .class_if(c.depth > 65536 * 256, "beyond-2^16-blocks"))
 }
 
+/// very many seeds, shallow: the key set-up runs once per seed, so a special case that depends on
+/// a coincidence inside the set-up (probability 2^-16 .. 2^-24 per seed) needs seed *count*, not
+/// stream depth. One case = a batch of consecutive counter-derived seeds, first 6 words each.
+#[derive(Clone, Debug, Serialize, Deserialize)]
+pub struct ManyCase {
+    pub wide: bool,
+    pub start: u64,
+    pub count: u32,
+}
+
+pub fn check_many(c: &ManyCase) -> CheckResult {
+    let ty = if c.wide { Ty::Isaac64 } else { Ty::Isaac };
+    let mut seed = [0u8; 32];
+    for k in 0..c.count as u64 {
+        // counter-based dense seeds (SplitMix64 of start + k, four words)
+        let mut z = c.start.wrapping_add(k).wrapping_mul(0x9e3779b97f4a7c15);
+        for w in 0..4 {
+            z = z.wrapping_add(0x9e3779b97f4a7c15);
+            let mut x = z;
+            x = (x ^ (x >> 30)).wrapping_mul(0xbf58476d1ce4e5b9);
+            x = (x ^ (x >> 27)).wrapping_mul(0x94d049bb133111eb);
+            x ^= x >> 31;
+            seed[8 * w..8 * w + 8].copy_from_slice(&x.to_le_bytes());
+        }
+        let mut g = adapter::from_seed(ty, &seed);
+        let mut m = if c.wide { M::B(Box::new(Isaac64::from_seed(&seed))) } else { M::A(Box::new(Isaac::from_seed(&seed))) };
+        for pos in 0..6 {
+            let (got, want) = (g.next_native(), m.next());
+            if got != want {
+                return Err(Fail::new(format!("C03:stream:{}:rng", ty.name()), format!("seed {} (number {} of the batch): stream position {} differs from the reference", crate::hexser::hex(&seed), k, pos)).exp_act(format!("{:#x}", want), format!("{:#x}", got)));
+            }
+        }
+    }
+    Ok(CaseInfo::new(c.count > 0).class("many-seeds-shallow"))
+}
+
 pub fn def(ctx: &Ctx) -> PropDef {
     let t = ctx.tier;
     let mut subs: Vec<Box<dyn SubCheck>> = Vec::new();
@@ -129,6 +165,13 @@ pub fn def(ctx: &Ctx) -> PropDef {
                 check,
             ));
         }
+        // 2^18 (thorough 2^25) seeds, six words each
+        subs.push(PSub::boxed(
+            format!("many-seeds/{}", ty.name()),
+            t.pick(128, 8192),
+            move || any::<u64>().prop_map(move |start| ManyCase { wide, start, count: 4096 }).boxed(),
+            check_many,
+        ));
         // beyond 2^16 blocks (counter-width boundaries): 66 000 blocks = 16.9 M words
         let long_depth = t.pick(66_000usize, 140_000) * 256;
         subs.push(PSub::boxed(
@@ -146,7 +189,7 @@ pub fn def(ctx: &Ctx) -> PropDef {
     }
     PropDef {
         id: "C03",
-        rule: "cases = {IsaacRng, Isaac64Rng} x 32-byte seed (uniform, sparse, dense, special words, single byte, zero, crate test seeds) or seed_from_u64(0) x depth (up to 3 blocks + delta, so every index of a block and >=2 refills; thorough up to 40 blocks) x route {next_u32/next_u64 of the Rng, BlockRngCore::generate of the public core}; every word is compared with the transliteration of Jenkins' rand.c / isaac64.c (randinit(TRUE) with the seed words in the first slots, resp. randinit(FALSE); plain 256-step loop; results handed out from randrsl[255] down). Non-trivial = not a crate test seed and depth > 10; distinct by hash of the case.".into(),
+        rule: "cases = {IsaacRng, Isaac64Rng} x 32-byte seed (uniform, sparse, dense, special words, single byte, zero, crate test seeds) or seed_from_u64(0) x depth (up to 3 blocks + delta, so every index of a block and >=2 refills; thorough up to 40 blocks) x route {next_u32/next_u64 of the Rng, BlockRngCore::generate of the public core}; every word is compared with the transliteration of Jenkins' rand.c / isaac64.c (randinit(TRUE) with the seed words in the first slots, resp. randinit(FALSE); plain 256-step loop; results handed out from randrsl[255] down). Non-trivial = not a crate test seed and depth > 10; distinct by hash of the case. many-seeds: 128 (thorough 8192) batches of 4096 counter-derived dense seeds per type, first six words each against the reference (2^19, thorough 2^25 key set-ups per type: a special case inside the set-up needs seed count, not depth; one batch counts as one evaluation).".into(),
         explanation: None,
         assumptions: vec!["refmodel::isaac transliterates Jenkins' reference (golden-ratio constants mixed at run time; validated at start-up against the vectors quoted by the crate tests and the independent Python model)".into()],
         subs,
